@@ -472,6 +472,8 @@ class GHEManager:
         """
 
         # convert from degrees to radians
+        max_rotation_deg = max_rotation
+        min_rotation_deg = min_rotation
         max_rotation = max_rotation * DEG_TO_RAD
         min_rotation = min_rotation * DEG_TO_RAD
 
@@ -486,6 +488,8 @@ class GHEManager:
             rotate_step,
             property_boundary,
             no_go_boundaries,
+            min_rotation_deg=min_rotation_deg,
+            max_rotation_deg=max_rotation_deg,
         )
         return 0
 
